@@ -212,7 +212,12 @@ pub struct AnyDelimited<'a> {
 
 impl<'a> AnyDelimited<'a> {
     /// Creates a new `AnyDelimited` with the specified delimiter bytes.
+    ///
+    /// # Panics
+    ///
+    /// Panics if `bytes` is empty: an empty delimiter cannot frame anything.
     pub fn new(bytes: &'a [u8]) -> Self {
+        assert!(!bytes.is_empty(), "the delimiter must not be empty");
         Self { bytes }
     }
 }
